@@ -148,6 +148,25 @@ Proof.
   exact (@restart_from_persisted b64enc b64dec b64_round h d names al age ans now C' P NO K).
 Qed.
 
+(* ---- A FAILED START IN BETWEEN.  Run 1 leaves a cache (content d, the document of a good state up
+   to stamps).  A later start that cannot obtain every declared name - whatever names it declares,
+   whatever the service answers for some of them - performs no cache write, so the content is
+   still d; and the start after that (run 1's names, any or no service) serves exactly what run 1
+   served, with an empty request list. *)
+Theorem C13_failed_start_keeps_cache : forall (h : hstate bytes) d names2 al2 age2 ans2 now2 names al age ans now,
+  clean good h -> pers h = Some d ->
+  new_store (decode_cache b64dec (encode_cache b64enc d)) names2 al2 age2 ans2 now2 = None ->
+  names_ok (norm_names names) al = true ->
+  (forall n, In n names -> known (hst h) n = true) ->
+  persist (pers h) (start_fx (decode_cache b64dec (encode_cache b64enc d)) names2 al2 age2 ans2 now2) true = Some d
+  /\ exists s3, new_store (decode_cache b64dec (encode_cache b64enc d)) names al age ans now = Some (s3, [], [])
+                /\ forall n, served (m s3) n = served (m (hst h)) n.
+Proof.
+  intros h d names2 al2 age2 ans2 now2 names al age ans now C P F NO K. split.
+  - unfold start_fx. rewrite F. cbn. exact P.
+  - exact (@restart_from_persisted b64enc b64dec b64_round h d names al age ans now C P NO K).
+Qed.
+
 (* ---- FILE CLIENT.  "the same file is accepted by the file-backed client with identical results
    for every non-empty secret": on a store-written document NewFileClient succeeds and knows
    exactly the entries with version > 0 and non-empty bytes, with the store's version and bytes
@@ -198,6 +217,7 @@ Print Assumptions C13_writes_land_in_order.
 Print Assumptions C13_cache_tracks_state.
 Print Assumptions C13_restart_same.
 Print Assumptions C13_restart_after_history.
+Print Assumptions C13_failed_start_keeps_cache.
 Print Assumptions C13_fileclient_accepts.
 Print Assumptions C13_fileclient_agrees.
 Print Assumptions C13_bad_cache_ignored.
